@@ -140,7 +140,7 @@ Definition chk_assets (site : string) (a : assets) : outcome assets :=
 Definition neg_expr (e : expr) : outcome expr :=
   match e with
   | ENone => Ok ENone
-  | ENumber x => z <- chk_i128 "neg" (- x) ;; Ok (ENumber z)
+  | ENumber x => if in_i128 (- x) then Ok (ENumber (- x)) else Err "InvalidUnaryOp"      (* checked_neg *)
   | EAssets xs => a <- expr_assets xs ;; n <- chk_assets "neg" (a_neg a) ;; Ok (assets_expr n)
   | _ => Err "InvalidUnaryOp"
   end.
@@ -157,7 +157,7 @@ Definition add_assets (xs : list (expr * expr * expr)) (other : expr) : outcome 
 
 Definition add_number (x : Z) (other : expr) : outcome expr :=
   match other with
-  | ENumber y => z <- chk_i128 "add" (x + y) ;; Ok (ENumber z)
+  | ENumber y => if in_i128 (x + y) then Ok (ENumber (x + y)) else Err "InvalidBinaryOp"   (* checked_add *)
   | ENone => Ok (ENumber x)
   | _ => Err "InvalidBinaryOp"
   end.
